@@ -48,6 +48,12 @@ func init() {
 	mutant(&Mutant{Name: "c16-svg-comments-dropped", Property: "C16", File: "svg/svg.go",
 		Old: "\t\t\tif o.KeepComments {\n\t\t\t\tw.Write(t.Data)", New: "\t\t\tif o.KeepComments && len(t.Data) < 64 {\n\t\t\t\tw.Write(t.Data)",
 		Rule: "R16.3", Construct: "svg.KeepComments"})
+	mutant(&Mutant{Name: "c16-nested-html-default-options", Property: "C16", File: "html/html.go",
+		Old: "if err := o.Minify(m, w, buffer.NewReader(t.Data[begin:end]), nil); err != nil {", New: "if err := Minify(m, w, buffer.NewReader(t.Data[begin:end]), nil); err != nil {",
+		Rule: "R16.4", Construct: "html/nested"})
+	mutant(&Mutant{Name: "c16-nested-html-fresh-minifier", Property: "C16", File: "html/html.go",
+		Old: "if err := o.Minify(m, w, buffer.NewReader(t.Data[begin:end]), nil); err != nil {", New: "if err := (&Minifier{KeepSpecialComments: true}).Minify(m, w, buffer.NewReader(t.Data[begin:end]), nil); err != nil {",
+		Rule: "R16.4", Construct: "html/nested"})
 	mutant(&Mutant{Name: "c16-xml-whitespace-trim", Property: "C16", File: "xml/xml.go",
 		Old: "\t\t\t\t\t\tif !o.KeepWhitespace {\n\t\t\t\t\t\t\tt.Data = t.Data[:len(t.Data)-1]\n\t\t\t\t\t\t\tomitSpace = false\n\t\t\t\t\t\t}", New: "\t\t\t\t\t\tt.Data = t.Data[:len(t.Data)-1]\n\t\t\t\t\t\tomitSpace = false",
 		Rule: "R16.3", Construct: "xml.KeepWhitespace"})
@@ -57,6 +63,72 @@ func runC16(c *Ctx) {
 	c.r161()
 	c.r162()
 	c.r163()
+	c.r164()
+}
+
+// R16.4: nested minification keeps the caller's options.
+func (c *Ctx) r164() {
+	const rule = "R16.4"
+	c.R.Rule(rule, "options reach nested content: in every minifier package the package-level Minify (which runs `(&Minifier{}).Minify`, i.e. all options off) is never called from the package's own code, and every call of the package's own (*Minifier).Minify outside that wrapper has the enclosing method's receiver as its receiver — so HTML inside a conditional comment, inline SVG, etc. is minified with the options the user set, not with defaults")
+	n := 0
+	for _, rel := range libPkgs {
+		if rel == "" {
+			continue
+		}
+		pk := c.pkg(rule, rel)
+		if pk == nil {
+			continue
+		}
+		info := pk.TypesInfo
+		wrapper := pk.Types.Scope().Lookup("Minify")
+		mt, _ := pk.Types.Scope().Lookup("Minifier").(*types.TypeName)
+		if wrapper == nil || mt == nil {
+			c.R.Unres(rule, rel+".Minify / "+rel+".Minifier", "-", "package has no Minify wrapper or Minifier type")
+			continue
+		}
+		n++
+		var bad []string
+		calls := 0
+		for _, fd := range load.FuncDecls(pk) {
+			if fd.Body == nil || info.Defs[fd.Name] == wrapper {
+				continue
+			}
+			var recv types.Object
+			if fd.Recv != nil && len(fd.Recv.List) == 1 && len(fd.Recv.List[0].Names) == 1 {
+				recv = info.Defs[fd.Recv.List[0].Names[0]]
+			}
+			ast.Inspect(fd.Body, func(x ast.Node) bool {
+				call, ok := x.(*ast.CallExpr)
+				if !ok {
+					return true
+				}
+				fo, _ := callee(info, call).(*types.Func)
+				if fo == nil || fo.Pkg() != pk.Types {
+					return true
+				}
+				if fo == wrapper {
+					bad = append(bad, fmt.Sprintf("%s calls the default-options wrapper %s.Minify at %s", load.FuncName(fd), rel, c.pos(call)))
+					return true
+				}
+				sig := fo.Type().(*types.Signature)
+				if fo.Name() != "Minify" || sig.Recv() == nil || namedTypeName(sig.Recv().Type()) != pk.Types.Path()+".Minifier" {
+					return true
+				}
+				calls++
+				sel, _ := call.Fun.(*ast.SelectorExpr)
+				var id *ast.Ident
+				if sel != nil {
+					id, _ = ast.Unparen(sel.X).(*ast.Ident)
+				}
+				if id == nil || recv == nil || info.Uses[id] != recv {
+					bad = append(bad, fmt.Sprintf("%s calls (*Minifier).Minify on %s, not on its own receiver, at %s", load.FuncName(fd), str(call.Fun), c.pos(call)))
+				}
+				return true
+			})
+		}
+		c.R.Check(len(bad) == 0, rule, rel+"/nested minification uses the caller's options", c.P.Pos(wrapper.Pos()), fmt.Sprintf("%d nested call(s), all on the receiver; wrapper not used internally", calls), strings.Join(bad, "; "))
+	}
+	c.R.Floor(rule, "minifier packages", n, 6)
 }
 
 // ---------------------------------------------------------------------------
